@@ -13,7 +13,10 @@ struct C17 : Prop {
 		       "can only be uninitialised memory (bool not 0/1, enum out of range, pointer / integer made of the stack or heap fill pattern); (2) the canonical form of every "
 		       "retained result is recomputed after each later phase and after bidib_stop and must not have changed (under ASan: a shallow copy of freed state is a "
 		       "use-after-free); (3) every result is passed to its free function exactly once after the stop (invalid / double free under ASan); (4) at quiescent moments every "
-		       "entity of bidib_get_state equals the corresponding single-entity getter field by field. non-trivial = results for known, unknown and NULL ids were retained "
+		       "entity of bidib_get_state equals the corresponding single-entity getter field by field; (5) hot-entity runs (three in ten): two uplink messages A and B that each determine "
+		       "one entity's state are delivered A, B, A, B with a quiescent read after each (the two canonical results must be reproducible), then alternate every 5-15 ms while 1-3 "
+		       "tasks call that entity's getter and bidib_get_state; library calls incl. strdup/malloc/free/strcmp/memcpy are preemption points; every concurrent result must equal "
+		       "one of the two canonical results (a copy of ONE state). non-trivial = results for known, unknown and NULL ids were retained "
 		       "across >=1 state change and the stop; distinct = (shape, trace).";
 	}
 	// ---- "hot entity" runs: one entity, two uplink messages A and B that each determine its state. Calibration phases deliver
